@@ -865,8 +865,12 @@ impl World {
                 if p0 >= limit {
                     continue;
                 }
-                let right_qos = spec.conns[conn].session.subs[si].qos == qos;
                 let created_qos = spec.conns[conn].session.subs[si].old_qos == Some(qos);
+                let qos_ok = |spec: &Spec, j: usize| -> bool {
+                    let s = &spec.conns[conn].session.subs[si];
+                    s.qos_ok_for(spec.flogs[s.flog].entries[j] as usize, qos)
+                };
+                let right_qos = qos_ok(spec, p0);
                 if is(spec, si, p0) {
                     if right_qos {
                         let mut v2 = v.clone();
@@ -883,8 +887,12 @@ impl World {
                     } else if wrong_qos.is_none() {
                         wrong_qos = Some(si);
                     }
-                } else if small_retention && (right_qos || created_qos) {
+                } else if small_retention {
                     if let Some(j) = (p0 + 1..limit).find(|j| is(spec, si, *j)) {
+                        let right_qos = qos_ok(spec, j);
+                        if !right_qos && !created_qos {
+                            continue;
+                        }
                         let mut v2 = v.clone();
                         v2.pos[si] = j + 1;
                         v2.oblig.push((spec.conns[conn].session.subs[si].flog, p0, j));
@@ -1841,7 +1849,17 @@ fn quiesce(router: &mut Router, world: &Rc<RefCell<World>>) -> bool {
                     s > 0 || g
                 }).unwrap_or(false)
         }) || w.links.iter().any(|l| l.state == LState::Pending);
-        if !progress && !pending_signals && w.evq.is_empty() {
+        // what the router just did may have enabled further link/client steps
+        let more = !w.enabled().is_empty() || w.abandoned.iter().any(|l| {
+            let k = &w.links[*l];
+            k.state == LState::Up
+                && (k.unnotified > 0
+                    || k.rx.as_ref().map(|r| {
+                        let (s, g) = r.verif_signal();
+                        s > 0 || g
+                    }).unwrap_or(false))
+        });
+        if !progress && !pending_signals && !more && w.evq.is_empty() {
             break;
         }
     }
